@@ -315,6 +315,37 @@ pub fn run(ctx: &RunCtx) -> i32 {
         r.sym("fill-drain-refill");
         shared.merge(r);
     });
+    // sends that FAIL (Rc = 0: the first timer cannot be armed; the call returns an error) are not requests: however many of
+    // them there are, none takes a slot - the error never turns into "maximum outstanding requests", and no event
+    {
+        let mut r = Report::new();
+        for limit in [1usize, 2, 3, 10] {
+            let cfg = Cfg { transport: Transport::Unreliable { rto_ms: 100, gran_ms: 1, rm: 2, rc: 0 }, mech: Mech::None, fingerprint: false, max_tx: limit, cred: 0, method: 1 };
+            let mut w = World::new(&cfg, apps.clone());
+            let before = w.canon();
+            for n in 0..limit + 3 {
+                r.eval();
+                let o = w.send(0);
+                let replay = json!({"config": cfg.show(), "scenario": format!("send_request number {} on a client whose RttConfig has rc = 0 (every send fails)", n + 1)});
+                match &o.res {
+                    CallRes::Panic(p) => r.violate(format!("client-panics/{}", crate::util::panic_site(p)), p.clone(), replay),
+                    CallRes::SendErr(ErrK::MaxOutstanding) => r.violate("failed-sends-consume-slots", format!("send {} refused with the maximum-outstanding error although nothing was ever sent (limit {})", n + 1, limit), replay),
+                    CallRes::SendErr(_) => {
+                        if !o.events.is_empty() {
+                            r.violate("failed-send-produces-events", format!("{:?}", super::world::show_events(&o.events)), replay);
+                        } else {
+                            // (what else such a call may touch - the staleness clock, say - is not C12's question)
+                            let _ = &before;
+                            r.sym("failing-sends-take-no-slot");
+                        }
+                    }
+                    // (a client that manages to send with rc = 0 is not this job's business)
+                    _ => break,
+                }
+            }
+        }
+        shared.merge(r);
+    }
     // look-alike ids
     let mut lcfgs = vec![];
     for limit in [1usize, 2, 3, 10] {
@@ -372,7 +403,7 @@ pub fn run(ctx: &RunCtx) -> i32 {
         rep,
         Finish {
             level: "model_checking",
-            rule: "breadth-first exploration of the real client for limits 0..=4 (depth 2*limit+4, capped at 9 quick / 11 thorough) x 4 transport/mechanism configurations (plus limits 1, 2 on two fingerprint-enforcing configurations, where the acceptable reply without / with a wrong FINGERPRINT is one more rejected buffer) over {Send (also probing a full table), Send with a 16-byte buffer (must fail without taking a slot), Indicate, Timer, AdvanceTo(next point, +1 ms, beyond), Deliver(an indication / a request carrying the id of an awaiting request), Deliver(each of the first two awaiting requests x reply menu incl. auth-failing, 401, 438), Deliver(unknown id), undecodable bytes}; default limit 10: directed fill-to-limit(+1 probe) / drain / refill executions for every pair of final-outcome kinds and every split of the ten requests between them, two rounds; limits 1, 2, 3, 10 x 3 configurations: table full, a success / error response whose id is one of 12 look-alikes of the newest / oldest outstanding id (same value under a fold of the 96 bits into 64 or 32 bits, a prefix, a suffix, byte- and word-order-insensitive digests, byte sums; plus an ordinary two-byte corruption) must be refused without events and free no slot, then every own response frees exactly one; limit 300: fill, probe, expire all in one timer call, refill. Monitor: send_request refused iff independently counted unfinished requests == limit; a refusal yields no event and an identical snapshot".into(),
+            rule: "breadth-first exploration of the real client for limits 0..=4 (depth 2*limit+4, capped at 9 quick / 11 thorough) x 4 transport/mechanism configurations (plus limits 1, 2 on two fingerprint-enforcing configurations, where the acceptable reply without / with a wrong FINGERPRINT is one more rejected buffer) over {Send (also probing a full table), Send with a 16-byte buffer (must fail without taking a slot), Indicate, Timer, AdvanceTo(next point, +1 ms, beyond), Deliver(an indication / a request carrying the id of an awaiting request), Deliver(each of the first two awaiting requests x reply menu incl. auth-failing, 401, 438), Deliver(unknown id), undecodable bytes}; default limit 10: directed fill-to-limit(+1 probe) / drain / refill executions for every pair of final-outcome kinds and every split of the ten requests between them, two rounds; limits 1, 2, 3, 10 with Rc = 0 (every send fails when its first timer is armed): limit + 3 failing sends never turn into the maximum-outstanding error and produce no event; limits 1, 2, 3, 10 x 3 configurations: table full, a success / error response whose id is one of 12 look-alikes of the newest / oldest outstanding id (same value under a fold of the 96 bits into 64 or 32 bits, a prefix, a suffix, byte- and word-order-insensitive digests, byte sums; plus an ordinary two-byte corruption) must be refused without events and free no slot, then every own response frees exactly one; limit 300: fill, probe, expire all in one timer call, refill. Monitor: send_request refused iff independently counted unfinished requests == limit; a refusal yields no event and an identical snapshot".into(),
             assumptions: vec!["a final outcome is what the application observes (response delivered, TransactionFailed, Retry)".into()],
             required_symbols: vec!["Send", "Indicate", "Timer", "Deliver", "refused-at-limit", "accepted-below-limit", "fill-drain-refill", "bfs-configs", "failed-send-clean", "limit-300", "lookalike-id-discarded"],
             min_outcomes: 6,
